@@ -60,6 +60,18 @@ def scenarios(tier):
     for codec in CODECS:
         for after in ("abort", "close"):
             sc.append(f"write {d} {codec} {small} 2 2 12 {after}")
+    # OPTIONAL columns written with def_levels == NULL (legal: all values present; the writer synthesises the levels),
+    # next to a REQUIRED column and an OPTIONAL column with explicit levels; enough rows for the level buffers to grow
+    sc.append(f"write {d} 0 inmLD 1 2 200 abort")
+    sc.append(f"write {d} 1 inmLD 1 3 2100 abort")
+    sc.append(f"read {d} 0 inmLD 1 2 200 fread")
+    sc.append(f"batch {d} 1 inmLD 1 2 200 mmap")
+    # zero-copy eligible columns only (REQUIRED, fixed width, PLAIN, uncompressed), several pages per chunk: the
+    # batch reader and the column reader are kept in use after a failed (or swallowed) page load
+    for mode in ("fread", "mmap", "buffer"):
+        sc.append(f"batch {d} 0 ilfd 2 3 40 {mode}")
+        sc.append(f"read {d} 0 ilfd 2 3 40 {mode}")
+    sc.append(f"batch {d} 0 ild 1 1 1000 mmap")
     # enough column chunks for the writer's and the reader's metadata arena to need a second block
     sc.append(f"write {d} 0 iLdiLdiLdiLd 20 1 3 abort")
     for codec in CODECS:
@@ -204,6 +216,10 @@ def run_all(rep, tier, rng, drv, ext=False):
     base = {}
     for s, o in zip(scs, cout):
         kv = parse_rec(o)
+        if o.startswith("OK") and kv.get("ok") == "1" and kv.get("rb") == "0":
+            rep.violation(f"fault-free run of scenario '{short(s)}': every call reports success but the file does not read back to the "
+                          f"intended table", {"case": "count " + s})
+            continue
         if not o.startswith("OK") or kv.get("ok") != "1" or kv.get("exit") != "0" or kv.get("leak") != "0":
             rep.violation(f"fault-free run of scenario '{' '.join(s.split()[:1] + s.split()[2:])}' is not clean: {o[:400]}", {"case": "count " + s})
             continue
@@ -398,7 +414,9 @@ def run(tier):
     ]
     rep.cov["rule"] = ("for each scenario (schema build x3 sizes; write of a 7-column multi-type nullable table x 5 codecs x {abort, close after the "
                        "failed call}; a 12-column 20-row-group table whose metadata outgrows the first arena block; column-reader and batch-reader "
-                       "reads x 5 codecs x {fread, mmap, buffer}) every k in 1..K (quick: scenarios with K > 700 are sampled per call site); "
+                       "reads x 5 codecs x {fread, mmap, buffer}; OPTIONAL columns written with def_levels = NULL; zero-copy-eligible multi-page tables; "
+                       "read scenarios keep using the column reader / batch reader after a failed call; the fault-free file of every write scenario is "
+                       "read back and compared with the intended table, faulty runs that report success are compared with it byte for byte) every k in 1..K (quick: scenarios with K > 700 are sampled per call site); "
                        "one evaluation = one (scenario, k); distinct by scenario text and k")
     try:
         drv = build_driver("h_alloc", extra=WRAP)
